@@ -120,7 +120,7 @@ func VerifC03DeleteSeq() {
 	n := verifChoice("n", maxn+1)
 	var digits []string
 	for i := 0; i < n; i++ {
-		digits = append(digits, verifStrN("e"+verifItoa(int64(i)), 1, "03"))
+		digits = append(digits, verifStrN("e"+verifItoa(int64(i)), 1, vDigits()))
 	}
 	build := func() *CandidateNode {
 		seq := vSeq()
@@ -145,10 +145,10 @@ func VerifC03DeleteSeq() {
 		j = verifIntRange("j", 0, maxn)
 	case 2:
 		selExpr, selName = ".[] | select(. == 7770003)", "select-eq"
-		v = verifStrN("v", 1, "03")
+		v = verifStrN("v", 1, vDigits())
 	case 3:
 		selExpr, selName = ".. | select(. == 7770003)", "recursive-select-eq"
-		v = verifStrN("v", 1, "03")
+		v = verifStrN("v", 1, vDigits())
 	}
 	subst := func(e *ExpressionNode) {
 		vSubst(e, "7770001", "!!int", verifItoa(int64(i)))
@@ -247,12 +247,12 @@ func VerifC03DeleteMap() {
 	n := verifChoice("n", maxn+1)
 	var keys, vals []string
 	for i := 0; i < n; i++ {
-		k := verifStrN("k"+verifItoa(int64(i)), 1, "ac")
+		k := verifStrN("k"+verifItoa(int64(i)), 1, "*c") // includes the glob characters * and ?
 		for _, prev := range keys {
 			verifAssume(!verifEqStr(prev, k)) // YAML maps have unique keys
 		}
 		keys = append(keys, k)
-		vals = append(vals, verifStrN("v"+verifItoa(int64(i)), 1, "03"))
+		vals = append(vals, verifStrN("v"+verifItoa(int64(i)), 1, vDigits()))
 	}
 	build := func() *CandidateNode {
 		m := vMap()
@@ -267,18 +267,18 @@ func VerifC03DeleteMap() {
 	switch selKind {
 	case 0:
 		selExpr, selName = ".KEYA", "key"
-		k1 = verifStrN("q1", 1, "ac")
+		k1 = verifStrN("q1", 1, "*c")
 	case 1:
 		selExpr, selName = ".KEYA, .KEYB", "two-keys"
-		k1 = verifStrN("q1", 1, "ac")
-		k2 = verifStrN("q2", 1, "ac")
+		k1 = verifStrN("q1", 1, "*c")
+		k2 = verifStrN("q2", 1, "*c")
 	case 2:
 		selExpr, selName = ".KEYB, .KEYA", "two-keys-swapped"
-		k1 = verifStrN("q1", 1, "ac")
-		k2 = verifStrN("q2", 1, "ac")
+		k1 = verifStrN("q1", 1, "*c")
+		k2 = verifStrN("q2", 1, "*c")
 	case 3:
 		selExpr, selName = ".[] | select(. == 7770003)", "select-eq"
-		v = verifStrN("v", 1, "03")
+		v = verifStrN("v", 1, vDigits())
 	}
 	subst := func(e *ExpressionNode) {
 		vSubst(e, "KEYA", "", k1)
